@@ -287,7 +287,24 @@ func checkC05(p *core.Program, r *core.Report) {
 				r.OK(R4, key+" registers", p.Pos(s.In.Pos()), "stored into Hub.connections unconditionally")
 			}
 		}
-		if n < 2 {
+		// both directions construct: the inbound handler and the dial function each reach a construction
+		// (directly or through a shared package-local helper)
+		hubLocal := func(f *ssa.Function) bool { return p.PkgShort(f) == "hub" && f.Blocks != nil }
+		isNCH := func(in ssa.Instruction) bool {
+			c := core.Common(in)
+			return c != nil && c.StaticCallee() == a.nch
+		}
+		eff := 0
+		roots := append([]*ssa.Function{}, a.dialFns...)
+		if serve := p.Method("hub", "Hub", "ServeHTTP"); serve != nil {
+			roots = append(roots, serve)
+		}
+		for _, root := range roots {
+			if len(core.ExpandSites(root, hubLocal, 2, isNCH)) > 0 {
+				eff++
+			}
+		}
+		if eff < 2 {
 			r.Fail(R4, "construction sites", "", "expected the inbound and the outbound construction site")
 		}
 		// the registry key is the connection's RemoteSKI
@@ -418,19 +435,19 @@ func checkKeepRule(p *core.Program, r *core.Report, a *hubAnchors, R1 string) {
 			ok := core.EnumPathItems(fn, 4096, func(items []core.PathItem, blocks []*ssa.BasicBlock, ret *ssa.Return) {
 				feasible := true
 				closes := false
-				var evalBool func(v ssa.Value, depth int) (bool, bool)
-				evalBool = func(v ssa.Value, depth int) (bool, bool) {
+				var evalBoolB func(v ssa.Value, blocks []*ssa.BasicBlock, depth int) (bool, bool)
+				evalBoolB = func(v ssa.Value, blocks []*ssa.BasicBlock, depth int) (bool, bool) {
 					if depth > 8 {
 						return false, false
 					}
 					if phi, ok := v.(*ssa.Phi); ok {
 						if nv := core.PhiOnPath(phi, blocks); nv != nil {
-							return evalBool(nv, depth+1)
+							return evalBoolB(nv, blocks, depth+1)
 						}
 						return false, false
 					}
 					if u, ok := v.(*ssa.UnOp); ok && u.Op == token.NOT {
-						x, k := evalBool(u.X, depth+1)
+						x, k := evalBoolB(u.X, blocks, depth+1)
 						return !x, k
 					}
 					if core.Canon(v) == incoming {
@@ -449,8 +466,42 @@ func checkKeepRule(p *core.Program, r *core.Report, a *hubAnchors, R1 string) {
 						}
 						return x, known
 					}
+					// a boolean helper of the package: evaluate its paths with its parameters bound to this call
+					if call, ok := v.(*ssa.Call); ok {
+						t := call.Call.StaticCallee()
+						if t == nil || t.Pkg != fn.Pkg || t.Blocks == nil || t.Signature.Results().Len() != 1 {
+							return false, false
+						}
+						undo := core.BindCall(call)
+						defer undo()
+						outs := map[bool]bool{}
+						unknown := false
+						okEnum := core.EnumPathItems(t, 1024, func(items2 []core.PathItem, blocks2 []*ssa.BasicBlock, ret2 *ssa.Return) {
+							for _, it := range items2 {
+								if it.Cond == nil {
+									continue
+								}
+								if x, known := evalBoolB(it.Cond, blocks2, depth+1); known && x != it.Truth {
+									return // infeasible under this abstract input
+								}
+							}
+							res, known := evalBoolB(core.ResultOf(ret2, 0), blocks2, depth+1)
+							if !known {
+								unknown = true
+								return
+							}
+							outs[res] = true
+						})
+						if !okEnum || unknown || len(outs) != 1 {
+							return false, false
+						}
+						for res := range outs {
+							return res, true
+						}
+					}
 					return false, false
 				}
+				evalBool := func(v ssa.Value, depth int) (bool, bool) { return evalBoolB(v, blocks, depth) }
 				for _, it := range items {
 					if it.Cond == nil {
 						if core.IsInvokeOf(it.In, mClose) {
@@ -557,7 +608,7 @@ func checkKeepRule(p *core.Program, r *core.Report, a *hubAnchors, R1 string) {
 			c, ok := v.(*ssa.Call)
 			return ok && truth && c.Call.StaticCallee() == fn
 		}
-		if core.Guarded(s.In, keepEdge) {
+		if guardedUp(p, s.In, keepEdge, 2) {
 			r.OK(R1, key, p.Pos(s.In.Pos()), "construction only on the keep edge")
 		} else {
 			r.Fail(R1, key, p.Pos(s.In.Pos()), "a connection is constructed without (or against) the double-connection decision")
@@ -596,6 +647,17 @@ func decisionFuncs(a *hubAnchors) []*ssa.Function {
 			if v, ok := in.(ssa.Value); ok && strOrderCmp(v) != nil {
 				has = true
 			}
+			// ... or delegates the comparison to a boolean helper of the package
+			if c, ok := in.(*ssa.Call); ok {
+				if t := c.Call.StaticCallee(); t != nil && t.Pkg == fn.Pkg && t.Blocks != nil && t.Signature.Results().Len() == 1 &&
+					types.Identical(t.Signature.Results().At(0).Type(), types.Typ[types.Bool]) {
+					core.EachInstr(t, func(y ssa.Instruction) {
+						if v, ok := y.(ssa.Value); ok && strOrderCmp(v) != nil {
+							has = true
+						}
+					})
+				}
+			}
 		})
 		hasSvc := false
 		for _, pa := range fn.Params {
@@ -608,4 +670,27 @@ func decisionFuncs(a *hubAnchors) []*ssa.Function {
 		}
 	}
 	return cands
+}
+
+
+// guardedUp: every path to the instruction takes a guard edge - inside its own function, or (for a helper)
+// before every plain call of that function, up to depth levels.
+func guardedUp(p *core.Program, in ssa.Instruction, guard core.EdgeFilter, depth int) bool {
+	if core.Guarded(in, guard) {
+		return true
+	}
+	ensureCallSites(p)
+	sites := gCallSites[in.Parent()]
+	if depth == 0 || len(sites) == 0 {
+		return false
+	}
+	for _, cs := range sites {
+		if _, isCall := cs.(*ssa.Call); !isCall {
+			return false
+		}
+		if !guardedUp(p, cs, guard, depth-1) {
+			return false
+		}
+	}
+	return true
 }
